@@ -42,7 +42,7 @@ def attach(scratch, files=None, harness_dir=None):
         if not os.path.exists(p):
             raise Undecided('attach', 'source file %s missing' % rel)
         with open(p, 'a') as f:
-            f.write('\n#[cfg(any(kani, %s))]\n#[path = "%s"]\npub mod verif_h;\n' % (GUARD, hp))
+            f.write('\n// @vx-attach-begin\n#[cfg(any(kani, %s))]\n#[path = "%s"]\npub mod verif_h;\n// @vx-attach-end\n' % (GUARD, hp))
         done.append(rel)
     return done
 
@@ -229,7 +229,41 @@ fn main() {
 '''
 
 
+def _strip_block(path, begin, end):
+    t = open(path).read()
+    while begin in t:
+        a = t.index(begin)
+        b = t.index(end, a) + len(end)
+        t = t[:a] + t[b:]
+    open(path, 'w').write(t)
+
+
 def build_native(scratch, extra_main=None, features=()):
+    """Build the native binary; when a harness file no longer compiles against the working tree (e.g. the signature of a
+    function it calls was changed), detach that harness and build without it -- the checks that need it become UNDECIDED,
+    the others (API-level checks in particular) still run.  Detached harnesses are recorded in scratch.detached."""
+    scratch.detached = getattr(scratch, 'detached', [])
+    for attempt in range(4):
+        try:
+            return _build_native(scratch, extra_main, features)
+        except Undecided as e:
+            bad = sorted(set(re.findall(r'/harness/(\w+_h\.rs)', e.reason)))
+            rel = [r for r, h in ATTACH.items() if h in bad and r not in scratch.detached]
+            if not rel:
+                raise
+            for r in rel:
+                _strip_block(scratch.path(r), '// @vx-attach-begin', '// @vx-attach-end')
+                scratch.detached.append(r)
+            for crate in ('autosar-data', 'autosar-data-specification'):
+                _strip_block(scratch.path(crate, 'src', 'lib.rs'), '// @vx-entry-begin', '// @vx-entry-end')
+            ws = scratch.path('Cargo.toml')
+            wt = open(ws).read().replace('\n    "vxnative",', '')
+            wt = wt.split('\n[profile.release]')[0]
+            open(ws, 'w').write(wt)
+    raise Undecided('native', 'native replay build failed repeatedly')
+
+
+def _build_native(scratch, extra_main=None, features=()):
     """Create a workspace member `vxnative` in the scratch copy and build it with the guard cfg.
     Returns path of the binary."""
     d = scratch.path('vxnative')
@@ -251,7 +285,7 @@ def build_native(scratch, extra_main=None, features=()):
                         ('autosar-data-specification', ['regex', 'autosarversion', 'attributename', 'elementname', 'enumitem'])):
         p = scratch.path(crate, 'src', 'lib.rs')
         lib = open(p).read()
-        lines = ['\n#[cfg(%s)]\n#[doc(hidden)]\npub mod verif_entry {' % GUARD, '    extern crate std; use std::vec::Vec;',
+        lines = ['\n// @vx-entry-begin\n#[cfg(%s)]\n#[doc(hidden)]\npub mod verif_entry {' % GUARD, '    extern crate std; use std::vec::Vec;',
                  '    pub fn run(module: &str, name: &str, vals: Vec<Vec<u8>>) -> Option<bool> {', '        match module {']
         have = []
         for mname in mods:
@@ -276,7 +310,7 @@ def build_native(scratch, extra_main=None, features=()):
         hfile = ATTACH.get('%s/src/lib.rs' % crate)
         if 'pub mod verif_h;' in lib and hfile and re.search(r'pub fn ground\(|vk_ground_names!', open(os.path.join(VERIF, 'harness', hfile)).read()):
             lines.append('            "lib" => crate::verif_h::ground(which),')
-        lines += ['            _ => None,', '        }', '    }', '}']
+        lines += ['            _ => None,', '        }', '    }', '}', '// @vx-entry-end']
         with open(p, 'a') as f:
             f.write('\n'.join(lines) + '\n')
     env = {'RUSTFLAGS': '--cfg %s -A unexpected_cfgs -A unused' % GUARD, 'CARGO_TARGET_DIR': scratch.path('target-native'), 'VX_GEN_DIR': gen_dir(scratch)}
